@@ -13,6 +13,7 @@ import (
 	_ "go.nanomsg.org/mangos/v3/transport/inproc"
 	"go.nanomsg.org/mangos/v3/vh/kit"
 	"go.nanomsg.org/mangos/v3/vz/vexplore"
+	"go.nanomsg.org/mangos/v3/vz/vsched"
 )
 
 type ctor func() (mangos.Socket, error)
@@ -59,7 +60,7 @@ func init() {
 		var out []*vexplore.Scenario
 		for _, t := range topos {
 			t := t
-			out = append(out, &vexplore.Scenario{Name: t.name, Mode: "sched", Bound: b, Reset: kit.ResetGlobals, Body: func() { run(t, false) }})
+			out = append(out, &vexplore.Scenario{Name: t.name, Mode: "sched", Bound: b, Cfg: vsched.Config{MapOrder: true}, Reset: kit.ResetGlobals, Body: func() { run(t, false) }})
 		}
 		// the same with every member already blocked in Recv when the messages start to flow, so
 		// that delivery to the application overlaps with forwarding to the other peers
@@ -67,7 +68,7 @@ func init() {
 			t := t
 			switch t.name {
 			case "star-hub-2-leaves", "star-tree-4", "bus-raw-forwarder", "bus-mesh-3":
-				out = append(out, &vexplore.Scenario{Name: t.name + "+receivers-waiting", Mode: "sched", Bound: b, Reset: kit.ResetGlobals, Body: func() { run(t, true) }})
+				out = append(out, &vexplore.Scenario{Name: t.name + "+receivers-waiting", Mode: "sched", Bound: b, Cfg: vsched.Config{MapOrder: true}, Reset: kit.ResetGlobals, Body: func() { run(t, true) }})
 			}
 		}
 		out = append(out, &vexplore.Scenario{Name: "xstar-raw-forward", Mode: "sched", Bound: b, Reset: kit.ResetGlobals, Body: xstarRaw})
